@@ -87,9 +87,13 @@ Fixpoint tuple_eqb (a b : list sqlval) : bool :=
 Definition key_eqv (a b : key) : bool := tuple_eqb (kvals a) (kvals b).
 
 (* ---- rows ---- *)
-Inductive cond := CAll | CMod (m r : Z) | CGt (k : Z) | CNone.
-Definition cond_holds (c : cond) (v : Z) : bool :=
-  match c with CAll => true | CMod m r => v mod m =? r | CGt k => k <? v | CNone => false end.
+(* CAnd: the relation's own conditions AND those given with Preload(clause.Associations, ...) *)
+Inductive cond := CAll | CMod (m r : Z) | CGt (k : Z) | CNone | CAnd (a b : cond).
+Fixpoint cond_holds (c : cond) (v : Z) : bool :=
+  match c with
+  | CAll => true | CMod m r => v mod m =? r | CGt k => k <? v | CNone => false
+  | CAnd a b => cond_holds a v && cond_holds b v
+  end.
 
 Record child := mk_child {
   c_uid : Z;          (* identifies the row in observations *)
